@@ -23,8 +23,12 @@ CFG = dict(
     rule="the REAL IPPoolController.reconcile() driven synchronously over a fake clientset and hand-fed informer indexers; "
          "streams: config (2-7 pools in an arbitrary state: any Allocatable condition, disabled, terminating, finalizers; 0-3 blocks; "
          "1-3 reconciles), history (from the empty cluster, 3-6 rounds of 0-3 API operations create/disable/enable/delete request/"
-         "foreign finalizer removed/block appears/block gone followed by a reconcile), scenario (10 scripted shapes + random tail), "
-         "malformed (unparseable pool and block CIDRs); pool CIDRs /22../28 crowded into 10.0.0.0/22 (15% with host bits set), a few "
+         "foreign finalizer removed/block appears/block gone followed by a reconcile), scenario (13 scripted shapes + random tail), "
+         "faults (histories of 4-7 passes in which, in about half of the passes, the UpdateStatus call for chosen pools - terminating ones "
+         "preferably - and/or the finalizer Update for chosen pools is rejected with a 409 by a reactor on the fake clientset, followed by "
+         "clean passes; also 35% of the config cases have failing writes in their first pass; scripted: status write of a freshly "
+         "terminating pool fails, finalizer/status writes of new pools fail, incumbent disabled with failed status write and re-enabled), "
+         "malformed (unparseable pool and block CIDRs); the oracle is applied after EVERY pass including the failed ones; pool CIDRs /22../28 crowded into 10.0.0.0/22 (15% with host bits set), a few "
          "elsewhere, 0.0.0.0/0, IPv6 /46../112; names chosen to exercise byte-wise name order; creation times with ties.  "
          "non-trivial = at some reconcile two pools with overlapping CIDRs are present; distinct by (initial configuration, operations)",
     trusted=["Coq 8.16.1 kernel + vm_compute",
@@ -32,7 +36,9 @@ CFG = dict(
              "Go driver harness/C39 (overlay build, tag verif) incl. its simulation of the API server's finalizer semantics and the "
              "client-go fake clientset (UpdateStatus/Update store the object as sent)",
              "Verif.C36 (felix/ip CIDRTrie: Get||Intersects||Covers == some stored prefix overlaps the query) for the trie abstraction"],
-    assumptions=["the informer caches are in sync with the datastore when reconcile starts; API writes succeed",
+    assumptions=["the informer caches are in sync with the datastore when reconcile starts",
+                 "a failing API write is rejected as a whole and changes nothing (409); status is a subresource: UpdateStatus changes only "
+                 ".status, Update never changes .status (reactor in the driver); resourceVersion conflicts arise only where injected",
                  "only the controller writes status.conditions; pool names are unique; spec.cidr is immutable",
                  "a delete request removes an object without finalizers at once, otherwise sets deletionTimestamp; an object with "
                  "deletionTimestamp disappears when its last finalizer is removed",
